@@ -379,6 +379,73 @@ func runCase(c Case) kit.Result {
 			if atRisk {
 				labels["copy-before-intermediate-root"] = true
 			}
+			if op.M&4 == 4 {
+				// both sides go on to append a (different) transaction hash to the same existing
+				// staking records - what two descendants of one state do when the same
+				// delegator/validator pair gets another pending transaction on each branch
+				type pair struct {
+					d, v common.Address
+					old  []common.Hash
+				}
+				var pairs []pair
+				for v := 0; v < sk.NVal && len(pairs) < 3; v++ {
+					for d := 0; d <= sk.NDel && len(pairs) < 3; d++ {
+						da := common.Address{}
+						if d < sk.NDel {
+							da = sk.Addrs[sk.NAcct+d]
+						}
+						if r := orig.GetStakingRecord(da, sk.ValAddr[v]); r != nil && len(r.TxHashes) > 0 {
+							pairs = append(pairs, pair{da, sk.ValAddr[v], append([]common.Hash(nil), r.TxHashes...)})
+							if cap(r.TxHashes) > len(r.TxHashes) {
+								labels["record-with-spare-capacity"] = true
+							}
+						}
+					}
+				}
+				if len(pairs) > 0 {
+					subj, wit := cp, orig
+					if op.M&1 == 1 {
+						subj, wit = orig, cp
+					}
+					hS := common.BytesToHash([]byte{0xf1, byte(i >> 8), byte(i), 1})
+					hW := common.BytesToHash([]byte{0xf1, byte(i >> 8), byte(i), 2})
+					write := func(st *state.StateDB, h common.Hash) {
+						for _, p := range pairs {
+							st.AddStakingRecord(p.d, p.v, h, nil)
+						}
+					}
+					if op.M&8 == 0 {
+						write(subj, hS)
+						write(wit, hW)
+						write(twin, hW)
+					} else {
+						write(wit, hW)
+						write(twin, hW)
+						write(subj, hS)
+					}
+					for _, side := range []struct {
+						st   *state.StateDB
+						h    common.Hash
+						name string
+					}{{subj, hS, "the side that continues"}, {wit, hW, "the side that is kept"}, {twin, hW, "the second copy"}} {
+						for _, p := range pairs {
+							want := fmt.Sprintf("%x", append(append([]common.Hash(nil), p.old...), side.h))
+							got := "<no record>"
+							if r := side.st.GetStakingRecord(p.d, p.v); r != nil {
+								got = fmt.Sprintf("%x", r.TxHashes)
+							}
+							if got != want {
+								return kit.Fail("copy-not-independent", "%s: after the copy each side appended its own transaction hash to the staking record %x>%x (%d hashes before); %s now lists\n  %s\nexpected\n  %s", when, p.d[17:], p.v[:3], len(p.old), side.name, got, want)
+							}
+						}
+					}
+					a = m.Observe(orig, true, true)
+					b = m.Observe(cp, true, true)
+					m.NoteSrecWrite()
+					m.NoteFlush()
+					labels["both-sides-append-to-record"] = true
+				}
+			}
 			if op.M&1 == 0 {
 				wits = append(wits, witness{orig, twin, a, fmt.Sprintf("the original (copied at op %d)", i), atRisk})
 				m.Adopt(cp, m.DB, m.Disk)
